@@ -53,6 +53,10 @@ def run(ctx, prog, facts, tier):
     rules_c01.check_strength_tables(ctx, prog, I)
     rules_c01.check_strictness(ctx, prog, I)
     rules_c01.check_pull_types(ctx, prog, I)
+    from . import rules_local
+    rules_local.check_threat_tables(ctx, prog, I, tier == 'quick')
+    rules_local.check_freeze_tables(ctx, prog, I, tier == 'quick')
+    rules_local.check_push_tables(ctx, prog, I)
     ctx.rule('C01.5', 'per mode (side x step x push/pull status) the rule-only action list consists of: one own-step '
                       'generator per direction (mover literal, destination empty, freezing footprint, rabbits not '
                       'backward), push starts only before the last step (enemy literal, destination empty), pulls '
@@ -69,8 +73,8 @@ def run(ctx, prog, facts, tier):
     ctx.analysed['undischarged_asserts_seen'] = sorted('%s:%s' % (k[0], k[2]) for k in bad)
     ctx.exhaustive = (tier != 'quick')
     ctx.assumptions += [
-        'NOT decided: that the freezing / threat formulas combine their (checked) ingredients with the right Boolean '
-        'operators; exactness of the offered set as a whole; continuation of every offered step to a complete turn; '
+        'Boolean structure of the freezing / threat / push formulas is decided exactly only for local configurations with at most '
+        'two neighbouring pieces of enumerated type and colour (LT tables); NOT decided beyond that: exactness of the offered set as a whole; continuation of every offered step to a complete turn; '
         'anything about sequences of more than one step',
         'a may-dependence is treated as a real dependence (no cancellation x ^ x, x & !x inside the formulas)',
         'board invariants p1 <= all, types pairwise disjoint (C10) are assumed for the colour-literal projection',
